@@ -148,6 +148,12 @@ CORPUS = [
     dict(kind="sched", n=4, edges=[[0, 3]], attrs=[dict(priority=5, is_sequential=False, resource="thread"), dict(priority=4, is_sequential=False, resource="thread"),
                                                   dict(priority=3, is_sequential=True, resource="thread"), dict(priority=10, is_sequential=False, resource="thread")],
          flags={}, rets=[1] * 4, fails=[], maxc=3, is_async=False, mode="call"),
+    # a root-restricted run that contains a flagged node but not the producer of its flag: the flag reads as None, the
+    # node is switched off (and its successor still runs)
+    dict(kind="sched", n=4, edges=[[0, 2], [2, 3]], attrs=[dict(priority=0, is_sequential=False, resource="thread")] * 4, flags={"2": ["node", 1]}, rets=[1, 1, 1, 1], fails=[], maxc=2, is_async=False,
+         mode="exec", target=None, exclude=None, root=[0]),
+    dict(kind="sched", n=4, edges=[[0, 2], [2, 3]], attrs=[dict(priority=0, is_sequential=False, resource="main-thread")] * 4, flags={"2": ["node", 1]}, rets=[1, 1, 1, 1], fails=[], maxc=1, is_async=True,
+         mode="exec", target=None, exclude=None, root=[0]),
     # fan-in behind a sequential node
     dict(kind="sched", n=5, edges=[[0, 3], [1, 3], [2, 3], [3, 4]], attrs=[dict(priority=0, is_sequential=False, resource="thread")] * 3 + [dict(priority=5, is_sequential=True, resource="thread"), dict(priority=0, is_sequential=False, resource="main-thread")],
          flags={}, rets=[1] * 5, fails=[], maxc=3, is_async=False, mode="call"),
@@ -471,6 +477,12 @@ def monitors(cfg, trace_seg_all, labels, end):
             continue
         p, key = cfg["active"][e[1]]
         if p not in part:
+            # the producer of the flag is not part of this run (a root / target restricted selection left it out) and has no
+            # stored result: the flag reads as None, the node is switched off
+            if p not in cfg.get("results_keys", []) and e[2]:
+                msg = "node %s was run although the producer %s of its flag is not part of the run and has no stored result (the flag reads as None)" % (e[1], p)
+                errs.append(("C10", msg))
+                errs.append(("C03", msg))
             continue
         if p in skipped:
             exp = None
@@ -601,6 +613,8 @@ def monitors(cfg, trace_seg_all, labels, end):
                     errs.append(("C14", "exception does not name failing node %s or lacks cause" % fnode))
                 elif isinstance(c, tz.NodeBoom) and c.node != fnode:
                     errs.append(("C14", "exception names failing node %s, its cause is the exception raised by %s" % (fnode, c.node)))
+                elif not isinstance(c, tz.NodeBoom) and type(c).__name__ != "TawaziBaseException":
+                    errs.append(("C14", "exception names failing node %s, its cause is %r, not the exception the node's function raised (NodeBoom)" % (fnode, c)))
                 elif type(c).__name__ == "TawaziBaseException":
                     errs.append(("C14", "exception names failing node %s, its cause is not the original exception but %r" % (fnode, c)))
             elif not isinstance(exc, tz.NodeBoom):
